@@ -29,8 +29,10 @@ TokSet ==
                          <<92, 100>> }
     [] Toks = "bref10" -> LET nest(n) == [k \in 1..n |-> 40] \o <<97>> \o [k \in 1..n |-> 41] IN      \* ((((((((((a)))))))))) : ten groups
                           { nest(10), nest(9), <<92,49>>, <<92,57>>, <<48>>, <<49>> }               \* ... then \1 0 / \10 / \9 1 ...
+    [] Toks = "xcat" -> { <<91>>, <<93>>, <<92,112,123,76>>, <<117,125>>, <<32>>, <<97>>, <<92,93>> }   \* [ ] \p{L u} space a \] : names and escapes inside classes under flag x
     [] Toks = "grp" -> { <<97>>, <<40>>, <<40,63,58>>, <<41>>, <<92,49>>, <<92,50>>, <<124>> }   \* groups, back-references: which \N is legal where
     [] Toks = "paren" -> { <<40>>, <<41>>, <<97>>, <<91>>, <<92>> }        \* literals full of unbalanced brackets (flag q: all literal)
+    [] Toks = "sigma" -> { <<931>>, <<963>>, <<927>>, <<40>> }             \* capital / small sigma, omicron: case folding that depends on the position in a word
     [] Toks = "ab" -> { <<97>>, <<98>>, <<40>> }                  \* literals that overlap themselves: aab, abab, ((a
     [] Toks = "meta" -> { <<97>>, <<98>>, <<40>>, <<41>>, <<91>>, <<93>>, <<123>>, <<125>>, <<92>>, <<63>>, <<42>>,
                           <<43>>, <<124>>, <<46>>, <<94>>, <<36>>, <<32>>, <<9>> }
